@@ -159,6 +159,10 @@ class Engine(object):
             return str_from_chars([self.fresh("%s_c%d" % (name, k), IntS) for k in range(n)])
         if kind == "seqstr":
             return SeqStr(self.fresh(name, z3.SeqSort(IntS)))
+        if kind == "char":
+            return Str([("chr", self.fresh(name, IntS))])
+        if kind == "astr":       # a string about which nothing is known (an accumulator cut at a loop head)
+            return Str([("sym", "%s!%d" % (name, fresh_id()), ())])
         if kind == "dt":
             return Opaque("dt", (self.fresh(name + "_us", IntS),))
         if kind == "td":
@@ -175,7 +179,7 @@ class Engine(object):
             return BoolS
         if kind.startswith("ref:") or kind.startswith("slist:") or kind == "ref":
             return RefS
-        if kind in ("dt", "td"):
+        if kind in ("dt", "td", "char"):
             return IntS
         raise SpecError("no SMT sort for kind %r" % kind)
 
@@ -192,6 +196,8 @@ class Engine(object):
             return SList(term, kind[6:])
         if kind in ("dt", "td"):
             return Opaque(kind, (term,))
+        if kind == "char":
+            return Str([("chr", term)])
         raise SpecError("cannot wrap kind %r" % kind)
 
     def unwrap(self, v, kind, P=None):
@@ -222,6 +228,11 @@ class Engine(object):
         elif kind in ("dt", "td"):
             if isinstance(v, Opaque) and v.tag == kind:
                 return v.payload[0]
+        elif kind == "char":
+            if isinstance(v, Str):
+                cs = v.chars()
+                if cs is not None and len(cs) == 1:
+                    return z3.IntVal(ord(cs[0])) if isinstance(cs[0], str) else cs[0]
         raise Unsupported("value %r does not fit kind %s" % (v, kind))
 
     def note(self, s):
@@ -666,7 +677,17 @@ class Engine(object):
             if v.kind in ("list", "dict"):
                 return z3.BoolVal(len(P.get(v)) > 0)
             return z3.BoolVal(True)
-        if isinstance(v, (Func, Bound, ClassV, Builtin, ModuleV, Opaque)):
+        if isinstance(v, Opaque):
+            if v.tag == "td":
+                return v.payload[0] != 0                      # timedelta(0) is falsy
+            if v.tag in ("udecomp", "udfields"):
+                return self.uni_funcs["DEC_N"](v.payload[0]) > 0   # "" / [] are falsy
+            if v.tag in ("dt", "ucat", "udfield", "range", "enumerate", "items"):
+                if v.tag in ("range", "enumerate", "items"):
+                    raise Unsupported("truthiness of %s" % v.tag)
+                return z3.BoolVal(True)
+            raise Unsupported("truthiness of %s" % v.tag)
+        if isinstance(v, (Func, Bound, ClassV, Builtin, ModuleV)):
             return z3.BoolVal(True)
         if isinstance(v, SeqStr):
             return z3.Length(v.t) != 0
@@ -1043,6 +1064,17 @@ class Engine(object):
             return z3.BoolVal(False)
         if isinstance(a, (Ref, SList)) and isinstance(b, (Ref, SList)):
             return a.t == b.t
+        for x, y in ((a, b), (b, a)):
+            if isinstance(x, Opaque) and x.tag == "ucat" and isinstance(y, Str) and y.concrete() is not None:
+                # category(c) == "Mn": an uninterpreted predicate per literal, tied to CAT_M by the literal's first letter
+                lit = y.concrete()
+                f = self.uf.get("CAT_IS_" + lit)
+                if f is None:
+                    f = self.uf["CAT_IS_" + lit] = z3.Function("CAT_IS_" + lit, IntS, BoolS)
+                c = x.payload[0]
+                m = self.uni_funcs["CAT_M"](c)
+                P.assume(z3.Implies(f(c), m if lit.startswith("M") else z3.Not(m)))
+                return f(c)
         if isinstance(a, Handle) and isinstance(b, Handle):
             if identity or a.kind in ("obj", "frame"):
                 return z3.BoolVal(a.id == b.id)
@@ -1113,7 +1145,12 @@ class Engine(object):
 
     def contains(self, cont, item, P):
         if isinstance(cont, Handle) and cont.kind == "dict":
-            return z3.BoolVal(self.dict_key(item) in P.get(cont))
+            d = P.get(cont)
+            if item is NONE:
+                return z3.BoolVal(None in d)
+            if isinstance(item, Num) and item.isint and self.cint(item) is None and all(isinstance(k, int) for k in d):
+                return z3.Or(*[item.t == k for k in d]) if d else z3.BoolVal(False)
+            return z3.BoolVal(self.dict_key(item) in d)
         if isinstance(cont, Handle) and cont.kind == "list":
             xs = P.get(cont)
             return z3.Or(*[self.equal(x, item, P) for x in xs]) if xs else z3.BoolVal(False)
@@ -1208,6 +1245,24 @@ class Engine(object):
     def index(self, P, ctx, o, k):
         if isinstance(o, Handle) and o.kind == "dict":
             d = P.get(o)
+            if isinstance(k, Num) and k.isint and self.cint(k) is None and d and all(isinstance(x, int) for x in d):
+                # symbolic int key of an int-keyed table: the key must be one of the keys (obligation), one path per key
+                if not ctx.spec:
+                    self.oblige(P, "safe.key#%d" % self.site(), z3.Or(*[k.t == x for x in d]), "safe")
+                vals = list(d.values())
+                if all(isinstance(v, Str) and v.concrete() is not None and len(v.concrete()) == 1 for v in vals):
+                    # a table of single characters: one symbolic character instead of one path per key
+                    t = z3.IntVal(ord(vals[-1].concrete()))
+                    for x, v in list(d.items())[:-1]:
+                        t = z3.If(k.t == x, z3.IntVal(ord(v.concrete())), t)
+                    return [(P, Str([("chr", t)]))]
+                outs = []
+                for x, v in d.items():
+                    q = P.clone()
+                    q.assume(k.t == x)
+                    if self.feasible(q):
+                        outs.append((q, v))
+                return outs
             key = self.dict_key(k)
             if key not in d:
                 return self.fail(P, "safe.key#%d" % self.site(), "missing key %r" % (key,))
@@ -1682,6 +1737,9 @@ class Engine(object):
                 args = [f.selfv] + args
             if name in self.specfuns:
                 return self.specfuns[name](self, P, ctx, *args, **kwargs)
+            if name.startswith("method.") and f.selfv is not None and isinstance(f.selfv, Opaque) \
+                    and f.selfv.tag in ("udecomp", "udfield", "udfields", "ucat"):
+                return self.uni_method(self, P, ctx, f.selfv, name[7:], args[1:])
             h = self.models.get(name)
             if h is None:
                 raise Unsupported("library call %s" % name)
@@ -2098,6 +2156,11 @@ class Engine(object):
             return [P]
         if isinstance(t, (ast.Tuple, ast.List)):
             items = self.iter_items(P, v)
+            if items is None and isinstance(v, Opaque) and v.tag == "udfields" and len(t.elts) == 2 \
+                    and not any(isinstance(x, ast.Starred) for x in t.elts):
+                # a, b = decomposition(c).split() on the path where it does NOT have two fields: ValueError
+                self.fail(P, "safe.unpack#%d" % self.site(), "not exactly 2 values to unpack")
+                return []
             if items is None:
                 raise Unsupported("unpacking of %r" % (v,))
             if len(items) != len(t.elts):
